@@ -31,12 +31,15 @@ def interest(mask, fdk, mcode, case):
 def lockstep(rng, chart_factory, n_ops, drive, plain=False):
     """Run two interpreters (checked / ignoring) on the same inputs. Returns (status, detail).
     plain: stock interpreter and evaluator, nothing recorded or probed in between."""
+    logical = rng.random() < 0.35     # a clock on which every reading during a step is observable (sx.LogicalClock)
+
     def mk(ignore):
         holder = {}
 
         def tick():
             holder['s'].clock.time += 1
-        holder['s'] = sx.Scenario(chart_factory(), ignore_contract=ignore, n_rec=1, plain=plain, initial_context={'tick': tick})
+        holder['s'] = sx.Scenario(chart_factory(), ignore_contract=ignore, n_rec=1, plain=plain,
+                                  initial_context={'tick': tick, 'res': sx.Resource()}, logical_clock=logical)
         return holder['s']
     a, b = mk(False), mk(True)
     script = []
